@@ -11,17 +11,18 @@ if [ ! -d $vs ]; then
 fi
 cd $vs
 git -C $rs checkout -q -- .
-for id in "$@"; do
-    prop=${id%%-*}
+for spec in "$@"; do
+    # "<id>" (property = prefix of the id) or "<id>:<property>"
+    id=${spec%%:*}; prop=${id%%-*}; [ "$spec" != "$id" ] && prop=${spec##*:}
     if ! git -C $rs apply --check $root/$id/patch.diff 2>/dev/null; then echo "$id: patch does not apply"; continue; fi
     git -C $rs apply $root/$id/patch.diff
-    VERIF_OUT_DIR=$vs/work/out/$id ./check $prop --tier quick > $vs/work-$id.log 2>&1
+    VERIF_OUT_DIR=$vs/work/out/$id-$prop ./check $prop --tier quick > $vs/work-$id.log 2>&1
     code=$?
     git -C $rs checkout -q -- .
     sig=$(grep -m3 '^violation: signature=' $vs/work-$id.log | sed 's/violation: signature=//' | tr '\n' ' ')
     case $code in
-      1) echo "$id @$commit: DETECTED ($sig)";;
-      0) echo "$id @$commit: MISSED";;
+      1) echo "$id @$commit by $prop: DETECTED ($sig)";;
+      0) echo "$id @$commit by $prop: MISSED";;
       *) echo "$id @$commit: harness error (exit $code): $(tail -3 $vs/work-$id.log | tr '\n' ' ')";;
     esac
 done
